@@ -82,6 +82,9 @@ def c14_add_transaction_step(ctx, v):
                           ("a conflict-free transaction with a new signature was not pooled", z3.And(z3.Not(conflict), z3.Not(dup_sig), z3.Not(pooled_now)))]
                 for s in ins:
                     checks.append(("a pooled transaction's input is not reserved in utxo_map", z3.And(z3.Not(conflict), z3.Not(dup_sig), z3.Not(reserved(s)))))
+                    was_reserved = z3.Or(*[value_eq(ex, key(s), key(p)) for p in pins])
+                    checks.append(("a transaction that was NOT pooled left one of its inputs reserved in utxo_map (an output no pooled transaction spends is locked)",
+                                   z3.And(z3.Not(pooled_now), reserved(s), z3.Not(was_reserved))))
                 for what, bad in checks:
                     r, m = ex.model_for(o.pc, bad)
                     v.queries += 1
